@@ -665,7 +665,7 @@ func (x *Explorer) Explore(check func()) {
 		x.TotalSteps += x.steps
 		if why != "" {
 			x.Aborted[why]++
-			if why == "budget" || why == "depth" || why == "concretise-limit" {
+			if why == "budget" || why == "depth" || why == "concretise-limit" || strings.HasPrefix(why, "giveup:") {
 				x.addUndecided(why)
 				if x.Aborted[why] >= 3 {
 					x.addUndecided("stopped-after-aborts")
